@@ -174,6 +174,17 @@ fn tags_of(fam: &Fam, cfg: &SCfg, r: &RunOut, tape: &[String]) -> String {
     if r.hung { t.push("hang".into()); }
     t.join(" ")
 }
+/// instance generator shared by the solver engines
+pub fn pick_fam(rng: &mut Rng, long_arcs: bool, focus_cache: bool, focus_dom: bool) -> Fam {
+    if focus_dom { return Fam::Knap(Knap::random_dominance(rng)); }
+    if focus_cache {
+        let mut t = TableDP::random_saturating(rng, long_arcs);
+        if rng.chance(2, 3) { t.rub_mode = 0; }
+        if rng.chance(1, 3) { t.dom_mode = 1; }
+        return Fam::Table(t);
+    }
+    if rng.chance(1, 5) && !long_arcs { Fam::Knap(Knap::random(rng)) } else { Fam::Table(TableDP::random(rng, long_arcs)) }
+}
 pub fn run_seq(a: &Args) {
     let mut out = Out::new(&a.out, "seq");
     if let Some(r) = &a.replay {
@@ -187,13 +198,17 @@ pub fn run_seq(a: &Args) {
         out.finish(); return;
     }
     let long_arcs = a.extra.iter().any(|x| x == "--long-arcs");
-    let kinds: Vec<usize> = if a.extra.iter().any(|x| x == "--pooled") { vec![2] } else if long_arcs { vec![0, 1, 2] } else { vec![0, 1] };
+    let focus_cache = a.extra.iter().any(|x| x == "--focus-cache");
+    let focus_dom = a.extra.iter().any(|x| x == "--focus-dominance");
+    let kinds: Vec<usize> = if a.extra.iter().any(|x| x == "--pooled") { vec![2] } else if long_arcs || focus_cache || focus_dom { vec![0, 1, 2] } else { vec![0, 1] };
     let mut rng = Rng::new(a.seed);
     let ninst = if a.thorough { 6000 } else { 500 };
     for _ in 0..ninst {
-        let fam = if rng.chance(1, 5) && !long_arcs { Fam::Knap(Knap::random(&mut rng)) } else { Fam::Table(TableDP::random(&mut rng, long_arcs)) };
+        let fam = pick_fam(&mut rng, long_arcs, focus_cache, focus_dom);
         for j in 0..3 {
             let mut cfg = random_cfg(&fam, &mut rng, &kinds);
+            if focus_cache { cfg.cache = true; cfg.w = WE::F(*rng.pick(&[1usize, 1, 2])); }
+            if focus_dom { cfg.w = WE::F(*rng.pick(&[1usize, 2, 2])); }
             if j == 1 { if let Some(p) = random_solution(&fam, &mut rng) { cfg.primal = Some(p); } }
             if j == 2 { cfg.stop_at = Some(rng.range(1, 12) as usize); }
             let ro = run_seq_once(&fam, &cfg, true);
